@@ -1,6 +1,6 @@
 (* glue for the request-decoder models (Ledger/Api.v, Base/JsonTree.v):
-   (apidec <kind> <json>)  ->  canonical decoded request | (client_error decode|validation) | (panic)
-   json ::= null | (b 0|1) | (n m) | (n m e) | (s "text") | (a json ...) | (o ("key" json) ...) *)
+   (apidec <kind> <ajson>)  ->  canonical decoded request | (client_error decode|validation) | (panic)
+   ajson ::= null | (b 0|1) | (n m) | (n m e) | (s "text") | (a ajson ...) | (o ("key" ajson) ...) *)
 open Sexp
 open Conv
 module M = Model
@@ -10,23 +10,23 @@ let qs (l : char list) = S (string_of_chars l)
 let b01 b = A (if b then "1" else "0")
 
 let rec json_of = function
-  | A "null" -> M.JNull
-  | L [A "b"; v] -> M.JBool (atom v = "1")
-  | L [A "n"; m] -> M.JNum (zarg m, None)
-  | L [A "n"; m; e] -> M.JNum (zarg m, Some (zarg e))
-  | L [A "s"; s] -> M.JStr (cs (atom s))
-  | L (A "a" :: l) -> M.JArr (List.map json_of l)
-  | L (A "o" :: l) -> M.JObj (List.map (function L [k; v] -> (cs (atom k), json_of v) | _ -> failwith "bad member") l)
-  | _ -> failwith "bad json"
+  | A "null" -> M.AJNull
+  | L [A "b"; v] -> M.AJBool (atom v = "1")
+  | L [A "n"; m] -> M.AJNum (zarg m, None)
+  | L [A "n"; m; e] -> M.AJNum (zarg m, Some (zarg e))
+  | L [A "s"; s] -> M.AJStr (cs (atom s))
+  | L (A "a" :: l) -> M.AJArr (List.map json_of l)
+  | L (A "o" :: l) -> M.AJObj (List.map (function L [k; v] -> (cs (atom k), json_of v) | _ -> failwith "bad member") l)
+  | _ -> failwith "bad ajson"
 
 let rec json_sx = function
-  | M.JNull -> A "null"
-  | M.JBool b -> L [A "b"; b01 b]
-  | M.JNum (m, None) -> L [A "n"; zout m]
-  | M.JNum (m, Some e) -> L [A "n"; zout m; zout e]
-  | M.JStr s -> L [A "s"; qs s]
-  | M.JArr l -> L (A "a" :: List.map json_sx l)
-  | M.JObj l -> L (A "o" :: List.map (fun (k, v) -> L [qs k; json_sx v]) l)
+  | M.AJNull -> A "null"
+  | M.AJBool b -> L [A "b"; b01 b]
+  | M.AJNum (m, None) -> L [A "n"; zout m]
+  | M.AJNum (m, Some e) -> L [A "n"; zout m; zout e]
+  | M.AJStr s -> L [A "s"; qs s]
+  | M.AJArr l -> L (A "a" :: List.map json_sx l)
+  | M.AJObj l -> L (A "o" :: List.map (fun (k, v) -> L [qs k; json_sx v]) l)
 
 (* ---- the instance of the abstract timestamp parser: RFC 3339 with optional fraction, as time.Parse(time.RFC3339Nano)
    accepts it on the corpus of the tie, rounded half-up to microseconds; result = microseconds since the Unix epoch *)
@@ -110,6 +110,6 @@ let () = register "apidec" (fun c ->
      | "v1script" -> decoded_sx script_sx (M.decode_v1_script j)
      | "bulk" -> decoded_sx bulk_sx (M.decode_bulk parse_time j)
      | "meta" -> decoded_sx (fun m -> L [A "meta"; meta_sx m]) (M.dec_metadata j)
-     | "time" -> (match j with M.JStr s -> L [A "time"; optz (parse_time s)] | _ -> failwith "time expects a string")
+     | "time" -> (match j with M.AJStr s -> L [A "time"; optz (parse_time s)] | _ -> failwith "time expects a string")
      | _ -> failwith "unknown kind")
   | _ -> failwith "bad apidec case")
